@@ -308,7 +308,7 @@ func srcClass(src string) string {
 	if i := strings.Index(strings.ToLower(src), "<!doctype"); i > 0 {
 		cl = append(cl, "doctype-not-first")
 	}
-	if strings.Contains(src, "{{ '") || strings.Contains(src, "{{ s == \"") {
+	if strings.Contains(src, "{{ '") || strings.Contains(src, "{{ s == \"") || strings.Contains(src, "{{ \"") {
 		cl = append(cl, "mustache-string-literal")
 	}
 	if len(cl) == 0 {
@@ -439,7 +439,7 @@ func c19Generate(tier string, emit func(src string)) {
 		"<!-- row -->\n<tr><td>x</td></tr>", "<!-- c --><td>x</td>", "<tr\r\n  v-for=\"r in rows\"><td>x</td></tr>", "<tr\tclass=\"a\"><td>x</td></tr>",
 		"<!-- x -->\n<!DOCTYPE html>\n<html><body><p>a</p></body></html>", "\n<!DOCTYPE html><html><head></head><body><p>a</p></body></html>",
 		`<svg><use xlink:href="#a"></use></svg>`, `<svg viewBox="0 0 1 1"><path d="M0 0"/></svg>`, `<svg><style>.a &gt; .b{}</style></svg>`, `<math><mi>x</mi></math>`,
-		`<p>{{ 'a  b' }}</p>`, `<p>{{ s == "x  y" ? 1 : 2 }}</p>`, `<p title="{{ 'a  b' }}">t</p>`, `<p>{{ a &amp;lt; b }}</p>`, `<p>{{ a &lt; b }}</p>`,
+		`<p>{{ 'a  b' }}</p>`, `<p>{{ s == "x  y" ? 1 : 2 }}</p>`, `<p>{{ "don't   stop" }}</p>`, `<td>{{ '6"   nail' }}</td>`, `<span>{{ 'say "hi"   now' }} and {{ "it's   ok" }}</span>`, "<p>{{ 'a\n  b' }}</p>", `<p title="{{ 'a  b' }}">t</p>`, `<p>{{ a &amp;lt; b }}</p>`, `<p>{{ a &lt; b }}</p>`,
 		`<p>a&nbsp;</p>`, `<p>&nbsp;a</p>`, `<p title="&nbsp;x&nbsp;">t</p>`, `<p>a&nbsp;&nbsp;b</p>`, `<b>x</b>&nbsp;<i>y</i>`,
 		`<script>var s = "</html>";</script>`, `<p>a</p><script>var s = "</html>";</script>`,
 	} {
